@@ -119,6 +119,11 @@ func genLivingCase(prop, tier string, r *rand.Rand) *Case {
 			tp.role = "dead-by-age"
 			tp.living = maxAgeZero
 			tp.year = ty - 120 - r.IntN(100)
+			if r.IntN(3) == 0 {
+				// long dead: born three to nine centuries ago (ages beyond
+				// what a time.Duration can hold)
+				tp.year = ty - 300 - r.IntN(600)
+			}
 			tp.p.Events = append(tp.p.Events, Event{Tag: "BIRT", Date: exactDate(tp.year), Place: tp.place})
 		case 4: // living by the age rule
 			tp.role = "living-by-age"
@@ -233,6 +238,14 @@ func genLivingCase(prop, tier string, r *rand.Rand) *Case {
 		if w := pick(r, g.People).Ptr; w != f.Husb {
 			f.Wife = w
 		}
+		if r.IntN(5) == 0 {
+			// a single parent
+			if f.Wife != "" && r.IntN(2) == 0 {
+				f.Husb = ""
+			} else {
+				f.Wife = ""
+			}
+		}
 		for c := r.IntN(3); c > 0; c-- {
 			ch := pick(r, g.People).Ptr
 			if ch != f.Husb && ch != f.Wife && !containsStr(f.Chil, ch) {
@@ -345,6 +358,15 @@ func genLivingCase(prop, tier string, r *rand.Rand) *Case {
 		}
 	}
 	for fi, f := range g.Families {
+		if (f.Husb == "") != (f.Wife == "") && (livingPtr[f.Husb] || livingPtr[f.Wife]) && r.IntN(2) == 0 {
+			// a family with one partner, who is living: its events are
+			// personal data of that person just the same
+			mt := newTok(r, &nt)
+			tag := pick(r, []string{"MARR", "MARR", "CENS", "EVEN"})
+			g.Families[fi].Events = []Event{{Tag: tag, Date: exactDate(ty - 9), Place: mt + "hall, England"}}
+			g2.Families[fi].Events = []Event{{Tag: tag, Date: exactDate(ty - 14), Place: newTok(r, &nt) + "court, England"}}
+			continue
+		}
 		if f.Husb != "" && f.Wife != "" && livingPtr[f.Husb] && livingPtr[f.Wife] && r.IntN(2) == 0 {
 			// the marriage of two living people is their personal data
 			mt := newTok(r, &nt)
